@@ -1,6 +1,7 @@
 package simrt
 
 import (
+	"crypto/sha1"
 	"context"
 	"errors"
 	"io"
@@ -293,4 +294,77 @@ func Knob(name string, dflt int) int {
 	}
 	s.knobs[name] = v
 	return v
+}
+
+// PoolGet / PoolPut replace sync.Pool in the code under test: a pool's
+// content depends on the P a goroutine happens to run on and on when the
+// garbage collector last ran, and it survives from one run of a worker
+// process to the next - three things no seed decides.  In a run, a pool is
+// a stack that starts empty: what was put last is handed out first, always
+// (which is also the most revealing order: a buffer that is still in use
+// after it was put back is reused at once).
+func PoolGet(p *sync.Pool) any {
+	s := cur.Load()
+	if s == nil || !runtime_simInBubble() {
+		return p.Get()
+	}
+	s.mu.Lock()
+	st := s.pools[p]
+	var x any
+	if n := len(st); n > 0 {
+		x = st[n-1]
+		s.pools[p] = st[:n-1]
+	}
+	s.mu.Unlock()
+	if x == nil && p.New != nil {
+		x = p.New()
+	}
+	return x
+}
+
+func PoolPut(p *sync.Pool, x any) {
+	s := cur.Load()
+	if s == nil || !runtime_simInBubble() {
+		p.Put(x)
+		return
+	}
+	if x == nil {
+		return
+	}
+	s.mu.Lock()
+	if s.pools == nil {
+		s.pools = map[*sync.Pool][]any{}
+	}
+	if len(s.pools[p]) < 64 {
+		s.pools[p] = append(s.pools[p], x)
+	}
+	s.mu.Unlock()
+}
+
+// SHA1Sum replaces crypto/sha1.Sum in the code under test: hashing a piece
+// takes time.  Under a fake clock it would take none, and everything that
+// is driven by a timer (an upload tick, a request tick, a deadline) could
+// never happen while a piece is being hashed - the very window in which
+// the piece store has released its lock.  In half of the runs a hash takes
+// a drawn 100 microseconds to 200 milliseconds of simulated time.
+func SHA1Sum(data []byte) [20]byte {
+	h := sha1.Sum(data)
+	s := cur.Load()
+	if s == nil || !runtime_simInBubble() || s.self() == nil {
+		return h
+	}
+	s.mu.Lock()
+	if !s.hashDrawn {
+		s.hashDrawn = true
+		if s.St.Bool(1, 2) {
+			s.hashDelay = time.Duration(Pick(s.St, 100, 2000, 20000, 200000)) * time.Microsecond
+		}
+	}
+	d := s.hashDelay
+	s.mu.Unlock()
+	if d > 0 {
+		time.Sleep(d)
+		Y(-1)
+	}
+	return h
 }
